@@ -42,7 +42,8 @@ def frames(natoms, nframes, endian=">", double=False, with_v=True, with_f=False,
         x = (base * 0.25 + k * 0.5) % 64.0 - 8.0
         v = (base * 0.125 - k * 0.25) % 16.0 - 4.0 if with_v else None
         f = (base * 0.5 + k) % 32.0 if with_f else None
-        box = np.diag([4.0 + k, 5.0 + 0.5 * k, 6.0])
+        # triclinic: a non-symmetric matrix, so that a transposed decode is visible
+        box = np.array([[4.0 + k, 0.0, 0.0], [0.5, 5.0 + 0.5 * k, 0.0], [-0.25, 1.125, 6.0]])
         b, hl = encode_frame(x, v, f, box, step=k * 10, time=0.5 * k, endian=endian, double=double)
         out.append(b)
         raw.append(dict(x=x, v=v, f=f, box=box, header_len=hl))
